@@ -85,7 +85,7 @@ def run_tlc(module_path, cfg=None, workers=1, env=None, timeout=600, extra=(), h
     own = metadir is None
     if own:
         metadir = tempfile.mkdtemp(prefix="tlcmeta_")
-    cmd = ["java", "-XX:+UseParallelGC", "-Xss512m", "-Xmx" + heap, "-DTLA-Library=" + os.pathsep.join([LIB] + sorted(os.path.join(SPECS, x) for x in os.listdir(SPECS) if os.path.isdir(os.path.join(SPECS, x)) and x != "lib")),
+    cmd = ["java", "-XX:+UseParallelGC", "-XX:ParallelGCThreads=%d" % max(2, min(int(workers), 8)), "-XX:CICompilerCount=2", "-Xss512m", "-Xmx" + heap, "-DTLA-Library=" + os.pathsep.join([LIB] + sorted(os.path.join(SPECS, x) for x in os.listdir(SPECS) if os.path.isdir(os.path.join(SPECS, x)) and x != "lib")),
            "-cp", JAR, "tlc2.TLC", "-workers", str(workers), "-metadir", metadir, "-noGenerateSpecTE",
            "-config", cfg]
     if not deadlock:
